@@ -217,6 +217,35 @@ impl<'tcx> Dumper<'tcx> {
                 }
             }
         }
+        // promoted constants of reference type (e.g. `&(0. ..=1.)`): identify them by pointee type + bytes
+        if let Const::Unevaluated(u, _) = c.const_ {
+            if u.promoted.is_some() {
+                if let ty::Ref(_, inner, _) = t.kind() {
+                    if let Ok(val) = c.const_.eval(tcx, env, c.span) {
+                        if let mir::ConstValue::Scalar(rustc_middle::mir::interpret::Scalar::Ptr(ptr, _)) = val {
+                            let (prov, offset) = ptr.into_raw_parts();
+                            if let Some(rustc_middle::mir::interpret::GlobalAlloc::Memory(m)) =
+                                tcx.try_get_global_alloc(prov.alloc_id())
+                            {
+                                if let Ok(layout) = tcx.layout_of(env.as_query_input(*inner)) {
+                                    let sz = layout.size.bytes_usize();
+                                    let off = offset.bytes_usize();
+                                    let a = m.inner();
+                                    if off + sz <= a.len() && a.provenance().ptrs().is_empty() {
+                                        let b = a.inspect_with_uninit_and_ptr_outside_interpreter(off..off + sz);
+                                        let mut h = String::from("bytes:");
+                                        for x in b {
+                                            let _ = write!(h, "{:02x}", x);
+                                        }
+                                        return format!("[\"constx\",{},{},null]", esc(&tys), esc(&h));
+                                    }
+                                }
+                            }
+                        }
+                    }
+                }
+            }
+        }
         // unevaluated path to a const item?
         let mut item = String::from("null");
         if let Const::Unevaluated(u, _) = c.const_ {
@@ -579,6 +608,7 @@ impl<'tcx> Dumper<'tcx> {
         let mut consts = Vec::new();
         let mut impls = Vec::new();
         let mut traits = Vec::new();
+        let mut statics = Vec::new();
         for ldid in tcx.hir_crate_items(()).definitions() {
             let did = ldid.to_def_id();
             match tcx.def_kind(did) {
@@ -677,6 +707,15 @@ impl<'tcx> Dumper<'tcx> {
                         esc(&self.span(tcx.def_span(did)))
                     ));
                 }
+                DefKind::Static { .. } => {
+                    let t = tcx.type_of(did).instantiate_identity().skip_norm_wip();
+                    statics.push(format!(
+                        "{}:{{\"ty\":{},\"span\":{}}}",
+                        esc(&self.path(did)),
+                        esc(&self.ty(t)),
+                        esc(&self.span(tcx.def_span(did)))
+                    ));
+                }
                 DefKind::Trait => {
                     let mut items = Vec::new();
                     for ai in tcx.associated_items(did).in_definition_order() {
@@ -695,7 +734,8 @@ impl<'tcx> Dumper<'tcx> {
         let _ = write!(out, "\"adts\":{{{}}},", adts.join(","));
         let _ = write!(out, "\"consts\":{{{}}},", consts.join(","));
         let _ = write!(out, "\"impls\":[{}],", impls.join(","));
-        let _ = write!(out, "\"traits\":{{{}}}", traits.join(","));
+        let _ = write!(out, "\"traits\":{{{}}},", traits.join(","));
+        let _ = write!(out, "\"statics\":{{{}}}", statics.join(","));
         out.push('}');
         out
     }
